@@ -180,10 +180,21 @@ where
     }
 
     unsafe fn span(eoi: &mut Self::Cache, range: Range<&Self::Cursor>) -> Self::Span {
-        match range.start.0.clone().next() {
-            Some((_, s)) => {
+        let next_start = range.start.0.clone().next().map(|(_, s)| s.start());
+        if range.start.1 == range.end.1 {
+            // Nothing was consumed: an empty span just after the previous token (or just before the next one)
+            let at = range
+                .end
+                .2
+                .clone()
+                .or(next_start)
+                .unwrap_or_else(|| eoi.end());
+            return S::new(eoi.context(), at.clone()..at);
+        }
+        match next_start {
+            Some(start) => {
                 let end = range.end.2.clone().unwrap_or_else(|| eoi.end());
-                S::new(eoi.context(), s.start()..end)
+                S::new(eoi.context(), start..end)
             }
             None => S::new(eoi.context(), eoi.end()..eoi.end()),
         }
